@@ -1,11 +1,11 @@
-\* negative control: lookup hashes the unresolved halo - Effective must be violated
+\* C15 simulation mode: 7 requests drawn from the whole request space (2^11 x 4), process boundaries, corruption and up to 3 crashes; run with -simulate
 CONSTANTS
   KeyFields = {"shape", "z", "profiles", "domain", "levels", "modes", "meas_pt", "bg", "analytic", "halo", "precision"}
-  HaloAtGet = "raw"
-  AtomicPut = TRUE
+  HaloAtGet = "resolved"
+  AtomicPut = FALSE
   CatchLoad = TRUE
-  MaxCrashes = 2
-  FreeRequests = 0
+  MaxCrashes = 3
+  FreeRequests = 7
 INIT Init
 NEXT Next
 CHECK_DEADLOCK FALSE
@@ -13,3 +13,4 @@ INVARIANT Transparent
 INVARIANT NeverFatal
 INVARIANT Effective
 INVARIANT StoreSound
+INVARIANT Emit
